@@ -7,10 +7,10 @@ cp $SRC/patch.diff $SRC/demo.py $DEST/ 2>/dev/null; cp $SRC/notes.md $DEST/agent
 T=$(mktemp -d /tmp/gcmpy_seed_XXXXXX)
 git -C /repo archive HEAD | tar -x -C $T
 mkdir -p $T/SEED; cp $DEST/demo.py $T/SEED/
-( cd $T && timeout 600 /venv/bin/python SEED/demo.py > $T/demo_without.log 2>&1 ); D0=$?
+( cd $T && PYTHONPATH=$T timeout 600 /venv/bin/python SEED/demo.py > $T/demo_without.log 2>&1 ); D0=$?
 if ! ( cd $T && git apply --check $DEST/patch.diff 2>/dev/null || patch -p1 --dry-run < $DEST/patch.diff >/dev/null 2>&1 ); then echo "PATCH DOES NOT APPLY"; fi
 ( cd $T && patch -p1 -s < $DEST/patch.diff ); PA=$?
-( cd $T && timeout 600 /venv/bin/python SEED/demo.py > $T/demo_with.log 2>&1 ); D1=$?
+( cd $T && PYTHONPATH=$T timeout 600 /venv/bin/python SEED/demo.py > $T/demo_with.log 2>&1 ); D1=$?
 ( cd $T && timeout 1500 /venv/bin/python -m pytest -q -p no:cacheprovider --timeout=900 -rf $TESTS 2>&1 | tail -12 ) > $T/tests.log; TS=$(tail -1 $T/tests.log)
 FAILED=$(grep '^FAILED' $T/tests.log | sed 's/.*:://; s/ .*//' | sort | tr '\n' ' ')
 KNOWN="test_marginal test_marginal_JDD_single_topology test_marginal_JDD_two_topologies test_marginal_JDD_two_topologies_sampling"
